@@ -217,20 +217,47 @@ PrimaryBy(order, d, ds) ==
       ELSE CHOOSE st \in DOMAIN d : TRUE
 DocOrder == <<"200", "201", "202", "204">>
 
-\* the keys of a declaration by ascending / descending status, `default` last
-KeySeq(keys, desc) ==
-  LET nums == SortSeq(SetToSeq(keys \ {"default"}), LAMBDA a, b : IF desc THEN Code(a) > Code(b) ELSE Code(a) < Code(b))
-  IN  nums \o (IF "default" \in keys THEN <<"default">> ELSE <<>>)
-\* document order of a scenario's `responses` map (sc.desc: written in descending status order)
-DocSeq(sc) == KeySeq(sc.others \cup {sc.served}, sc.desc)
+\* The responses of an operation are a SEQUENCE (the `responses` map in document order), not a set.  Orders of the family:
+\* "asc" ascending status with `default` last (the usual habit), "desc" the reverse, "rot" the ascending order rotated by one
+Orders == {"asc", "desc", "rot"}
+Rank(st) == IF st = "default" THEN 999 ELSE Code(st)
+KeySeq(keys, ord) ==
+  LET asc == SortSeq(SetToSeq(keys), LAMBDA a, b : Rank(a) < Rank(b))
+  IN  IF ord = "desc" THEN Reverse(asc) ELSE IF ord = "rot" /\ Len(asc) > 1 THEN Tail(asc) \o <<Head(asc)>> ELSE asc
+\* document order of a scenario's `responses` map
+DocSeq(sc) == KeySeq(sc.others \cup {sc.served}, sc.ord)
+
+\* How the served response is DECLARED (`share`):
+\*   "inline"            in the operation itself
+\*   "ref"               `$ref: #/components/responses/R`, referenced by this operation only
+\*   "co_same_before/after"   R is also referenced by a COMPANION operation of the same document under the SAME status; the
+\*                       companion comes before / after this operation in `paths`
+\*   "co_other_before/after"  ... under a DIFFERENT status (CoStatus)
+\* The companion is an operation of its own (own path, own tag) whose only response is that reference; it is called too.
+Shares == {"inline", "ref", "co_same_before", "co_same_after", "co_other_before", "co_other_after"}
+HasCompanion(sh) == sh \in {"co_same_before", "co_same_after", "co_other_before", "co_other_after"}
+AltStatus(st) == IF st = "200" THEN "201" ELSE "200"
+CoStatus(sc) == IF sc.share \in {"co_same_before", "co_same_after"} THEN sc.served ELSE AltStatus(sc.served)
+MirrorShare(sh) == CASE sh = "co_same_before" -> "co_same_after" [] sh = "co_same_after" -> "co_same_before"
+                     [] sh = "co_other_before" -> "co_other_after" [] sh = "co_other_after" -> "co_other_before" [] OTHER -> sh
 
 \* a scenario: the served response + the other declared statuses + sib: the operation's tag (= its emitted endpoint
 \* module) holds a second, ordinary operation (GET returning a JSON model) - or the operation is alone in its module
 Decl(sc) == [st \in sc.others \cup {sc.served} |-> IF st = sc.served THEN sc.cell ELSE Filler(st)]
 
 Scenarios(maxDecl) ==
-  {[served |-> st, cell |-> cell, others |-> o, sib |-> sib, desc |-> desc] :
-      st \in Statuses, cell \in Cells, o \in UNION {kSubset(n, Statuses) : n \in 0..(maxDecl - 1)}, sib \in BOOLEAN, desc \in BOOLEAN}
+  {[served |-> st, cell |-> cell, others |-> o, sib |-> sib, ord |-> ord, share |-> share] :
+      st \in Statuses, cell \in Cells, o \in UNION {kSubset(n, Statuses) : n \in 0..(maxDecl - 1)}, sib \in BOOLEAN,
+      ord \in Orders, share \in Shares}
+
+\* Stratification: the ORDER of the responses and the way the served response is DECLARED concern the selection / parsing
+\* logic, not the extraction of a particular body shape - they are crossed with a few representative cells, all the cells
+\* are crossed with the usual order and an inline declaration.
+OrderCells == {[c |-> "json", sh |-> "object"], [c |-> "json", sh |-> "prim"], [c |-> "json+text", sh |-> "object"],
+               [c |-> "octet", sh |-> "-"], [c |-> "none", sh |-> "-"]}
+ShareCells == {[c |-> "json", sh |-> "object"], [c |-> "json+text", sh |-> "object"], [c |-> "sse", sh |-> "object"]}
+\* the companion operation of a scenario, as a scenario of its own
+CoScenario(sc) == [served |-> CoStatus(sc), cell |-> sc.cell, others |-> {}, sib |-> FALSE, ord |-> "asc", share |-> MirrorShare(sc.share)]
 WellFormedScenario(sc) ==
   /\ sc.served \notin sc.others
   /\ sc.served = "204" => sc.cell.c = "none"
@@ -244,7 +271,18 @@ WellFormedScenario(sc) ==
   \* 207 is in the family for the "any other 2xx" rule: only where none of 200/201/202/204 is declared (elsewhere it
   \* would repeat 206); the order of the map is varied exactly where that rule has a choice (206 and 207 both declared)
   /\ "207" \in (sc.others \cup {sc.served}) => (sc.others \cup {sc.served}) \cap {"200", "201", "202", "204"} = {}
-  /\ sc.desc => {"206", "207"} \subseteq (sc.others \cup {sc.served})
+  \* order: every declared set of two or more keys also reversed, of three or more also rotated - with the representative
+  \* cells; with ALL cells where "first declared other 2xx" has a choice (206 and 207 both declared, reversed)
+  /\ sc.ord # "asc" =>
+        /\ Cardinality(sc.others) >= (IF sc.ord = "rot" THEN 2 ELSE 1)
+        /\ sc.share = "inline"
+        /\ \/ (sc.cell \in OrderCells /\ ~sc.sib)
+           \/ (sc.ord = "desc" /\ {"206", "207"} \subseteq (sc.others \cup {sc.served}))
+  \* declaration by reference / shared with a companion operation: representative cells, alone or next to one other key
+  /\ sc.share # "inline" =>
+        /\ sc.cell \in ShareCells /\ ~sc.sib /\ sc.served # "204"
+        /\ Cardinality(sc.others) <= 1
+        /\ sc.others # {} => (sc.cell = [c |-> "json", sh |-> "object"] /\ sc.share \in {"ref", "co_other_before", "co_other_after"})
 
 \* ---------------------------------------------------------------------------------------------
 \* reference meaning (what the property promises) - independent of any selection logic
@@ -334,15 +372,18 @@ Holds(ctx, b, ann, o) == Failures(ctx, b, ann, o) = {}
 \* ---------------------------------------------------------------------------------------------
 \* implementation-shaped model
 
-Variants == {"as_is", "fixed", "sig201", "hdl201", "sigsorted"}
+Variants == {"as_is", "fixed", "sig201", "hdl201", "sigsorted", "hdlfirst"}
 
 \* the priority list of the two copies of the primary-response selection
 SigOrder(v) == IF v = "sig201" THEN <<"201", "200", "202", "204">> ELSE DocOrder
 HdlOrder(v) == IF v = "hdl201" THEN <<"201", "200", "202", "204">> ELSE DocOrder
 
 \* ("sigsorted": the signature copy takes the LOWEST other 2xx instead of the first declared one)
-PrimarySig(v, d, ds) == PrimaryBy(SigOrder(v), d, IF v = "sigsorted" THEN KeySeq(DOMAIN d, FALSE) ELSE ds)
-PrimaryHdl(v, d, ds) == PrimaryBy(HdlOrder(v), d, ds)
+PrimarySig(v, d, ds) == PrimaryBy(SigOrder(v), d, IF v = "sigsorted" THEN KeySeq(DOMAIN d, "asc") ELSE ds)
+\* ("hdlfirst": the handler copy takes the FIRST DECLARED of 200/201/202/204 instead of the first by priority)
+PrimaryHdl(v, d, ds) ==
+  LET pri == SelectSeq(ds, LAMBDA st : st \in {"200", "201", "202", "204"})
+  IN  IF v = "hdlfirst" /\ Len(pri) > 0 THEN pri[1] ELSE PrimaryBy(HdlOrder(v), d, ds)
 
 \* python type the resolver gives a schema
 TypeOf(sh) == CASE sh = "object" -> "Thing" [] sh = "array" -> "List[Thing]" [] sh = "primalias" -> "Label"
